@@ -11,7 +11,7 @@ META = {
     "level": "proof",
     "trusted_base": ["Python ast parser", "gmpy2.f_mod_2exp(x, t) == x (mod 2^t)", "odd squares are 1 mod 8", "divmod(a, b): a = q*b + r",
                      "2-adic valuation: 2^t | e implies 2^(2t) | e^2", "pcstatic walker + polynomial normal form"],
-    "assumptions": ["the rational linear solver, completeness of the small-root finders, Sieve, PseudoAverage, UniformSumCdf and CombinedPValue numerics are not decided (Bias: its definition and summand count are, R-C19-BIAS)"],
+    "assumptions": ["completeness of the small-root finders (Coppersmith lattices over sympy objects), rank accounting and pivot search of echelon_form, and floating-point accuracy of the numerics are not decided"],
     "explanation": ("Newton/Hensel loops are proved by a declared invariant plus a polynomial step identity and an exponent-growth inequality; the four square roots "
                     "by identities modulo 2^k; DivmodRounded by the divmod axiom; root finders release a value only under the divisibility test on f(root) of the same root."),
 }
